@@ -1,9 +1,10 @@
 """Per-property configuration of ./check (engines, trusted base, assumptions)."""
 
 # model .vo files the extraction depends on (relative to coq/)
-MODEL_VO = ['gen/Consts.vo', 'gen/CrcTables.vo', 'model/Bytes.vo', 'model/Codec.vo']
+MODEL_VO = ['gen/Consts.vo', 'gen/CrcTables.vo', 'model/Bytes.vo', 'model/Codec.vo', 'model/Order.vo', 'model/Crc.vo',
+            'model/Block.vo', 'model/Writer.vo', 'model/WriteLoop.vo', 'spec/Leb128.vo', 'spec/Parse.vo']
 # OCaml modules of the driver, in link order
-OCAML_MODULES = ['common', 'c16', 'main']
+OCAML_MODULES = ['common', 'gen', 'c16', 'wr', 'c20', 'main']
 C_VARIANTS_SETUP = ('all',)
 EXTRA_BUILDS = []
 COQ_TIMEOUT = 3000
@@ -25,7 +26,39 @@ COMMON_TRUSTED = [
     'gcc, libc, the kernel; asserts enabled (no NDEBUG); little-endian x86-64 host',
 ]
 
+WORLD_COMPRESS = 'compression oracle: the model writer calls the implementation\'s own mtbl_compress/mtbl_compress_level for block contents (Section variables compress_default/compress_level; hypothesis: they succeed and return a non-empty buffer)'
+
 PROPS = {
+    'C08': {
+        'engines': [{'name': 'wr', 'timeout_quick': 600, 'timeout_thorough': 7200}],
+        'trusted_base': [WORLD_COMPRESS],
+        'assumptions': [
+            'keys are byte strings (each element < 256); block_restart_interval >= 1',
+            'compressing a block never fails (the writer asserts it)',
+            'mtbl_writer_init on an existing path: O_CREAT|O_EXCL is an OS contract - validated by the driver on regular/empty/symlink/directory targets, not modelled',
+            'the clause "the finished file holds exactly the accepted entries" is checked on the implementation with the extracted independent decoder; its theorem is T09/T01 (reader side)',
+        ],
+        'explanation': 'T08a (gate + refused add leaves the state unchanged), T08b (every add sequence: results = "strictly greater than last accepted", no abort), T08e (bytes_compare is the stated total order). Correspondence: real writer vs model writer byte for byte, results vs the rule, refused adds vs the file written from the accepted adds alone.',
+    },
+    'C10': {
+        'engines': [{'name': 'wr', 'timeout_quick': 600, 'timeout_thorough': 7200}],
+        'trusted_base': [WORLD_COMPRESS],
+        'assumptions': [
+            'block_restart_interval >= 1; compression never fails',
+            'T10b: every statistic is < 2^64 (true of any file that fits a 64-bit offset)',
+            '"number of data blocks / bytes" in T10a are those of the frames the writer model emits; that an independent decoder finds the same frames is checked on every implementation file by the extracted decoder (spec/Parse.v)',
+        ],
+        'explanation': 'T10a: trailer fields = counts of ACCEPTED entries, number/size of data frames, index offset/size, configured block size and algorithm, for every configuration, initial offset and add sequence; T10b/c: trailer round trip and agreement of the scraped field orders. Correspondence: accessors and mtbl_info output vs the independent decoder\'s view of the real file.',
+    },
+    'C20': {
+        'engines': [{'name': 'c20', 'timeout_quick': 600, 'timeout_thorough': 7200}],
+        'trusted_base': [WORLD_COMPRESS, 'write(2) shim: writer.c compiled with -Dwrite=vp_write (ocaml/stubs.c) - assumes write(2) appends exactly the first r bytes it reports'],
+        'assumptions': [
+            'write(2) semantics: a return value r > 0 means the first r bytes were appended; -1/EINTR means nothing was written',
+            'a compressor never returns an empty buffer (so _write_all is never called with size 0)',
+        ],
+        'explanation': 'T20a: _write_all under any outcome sequence appends exactly the buffer or aborts, and aborts exactly when an error/zero return is met before completion; T20b: the finished file of any writer session is independent of the fragmentation. Correspondence: real writer under exhaustive single faults at every write call and random multi-fault schedules.',
+    },
     'C16': {
         'engines': [{'name': 'c16', 'timeout_quick': 300, 'timeout_thorough': 3600}],
         'trusted_base': [],
